@@ -4,7 +4,33 @@ from .common import *
 from .pcommon import BASE_ASSUMPTIONS
 
 
+def extras(tier, seed):
+    """Specification growth beyond the listed properties (HeaderExtraTrace.tla): never a verdict."""
+    trace = os.path.join(BUILD, "c15_header.ndjson")
+    vh(["drive-module", "--header-api", "--n", "300" if tier == "quick" else "20000", "--seed", str(seed), "--out", trace])
+    n, bad, dt = tlc_trace("HeaderExtraTrace.tla", "HeaderExtraTrace.cfg", trace, "c15_header", env={"DISASMNAMES": os.path.join(SPEC, "DisasmNames.json")})
+    if bad:
+        ev = read_trace(trace)
+        for idx, code in bad[:5]:
+            log("EXTRA-OBSERVATION (not a property verdict): ModuleHeader accessor rejected by HeaderExtraTrace: %s" % json.dumps(ev[idx - 1])[:300])
+    path = os.path.join(EVIDENCE, "C15.json")
+    e = json.load(open(path))
+    e["coverage"]["extra_behaviours"] = {"spec": "spec/HeaderExtraTrace.tla", "behaviours": ["ModuleHeader::version", "ModuleHeader::generator", "ModuleHeader::set_version", "ModuleHeader::new"],
+                                         "events_validated": n, "rejected": len(bad), "note": "beyond the listed properties; reported, never a verdict"}
+    json.dump(e, open(path, "w"), indent=1)
+
+
 def run_check(tier, seed, replay=None):
+    rc = _run(tier, seed, replay)
+    if not replay:
+        try:
+            extras(tier, seed)
+        except ToolError as e:
+            log("extras skipped: %s" % str(e)[:200])
+    return rc
+
+
+def _run(tier, seed, replay=None):
     t0 = time.time()
     rep = Report("C15")
     build_harness()
